@@ -215,9 +215,30 @@ def _has_type(v):
     return False
 
 
+def _round6(v):
+    """every number replaced by the nearest decimal with six fractional digits (what ConfigWriter::EmitNumber prints)"""
+    if isinstance(v, bool):
+        return v
+    if isinstance(v, float):
+        r = float("%.6f" % v)
+        return int(r) if r == int(r) and abs(r) < 2 ** 53 else r
+    if isinstance(v, dict):
+        return {k: _round6(x) for k, x in v.items()}
+    if isinstance(v, list):
+        return [_round6(x) for x in v]
+    return v
+
+
 def _s_hazards(spec):
-    """("typekey",): a dictionary with a `type` key inside the generated state (F-C14c)"""
-    return [("typekey",)] if _has_type(spec.get("st")) else []
+    """("typekey",): a dictionary with a `type` key inside the generated state (F-C14c);
+       ("numround",): a modification holds a number that is not a decimal with <= 6 fractional digits (C17's F-C17a)"""
+    hz = []
+    if _has_type(spec.get("st")):
+        hz.append(("typekey",))
+    mods = spec.get("mods") or []
+    if any(json.dumps(_round6(m[1])) != json.dumps(m[1]) and _round6(m[1]) != m[1] for m in mods):
+        hz.append(("numround",))
+    return hz
 
 
 def _s_repair(spec, hz):
@@ -225,10 +246,12 @@ def _s_repair(spec, hz):
     n = copy.deepcopy(spec)
     if hz[0] == "typekey":
         n["st"] = _retype(n["st"])
+    elif hz[0] == "numround":
+        n["mods"] = [[m[0], _round6(m[1])] for m in n["mods"]]
     return n
 
 
-_S_CLASS = {"typekey": "type-key-in-state"}
+_S_CLASS = {"typekey": "type-key-in-state", "numround": "number-rounded-to-6-digits"}
 
 
 class C14(Check):
@@ -249,7 +272,7 @@ class C14(Check):
                   "JSON-decoding and deserialising onto freshly created objects yields exactly the dumped state (C20's json_roundtrip and "
                   "frames_split_regardless_of_chunking composed with Serialize/Deserialize); for every prefix of AtomicFile's system-call sequence and every crash "
                   "view (any earlier directory state, arbitrary contents of unsynced files) the target path reads as the complete old or the complete new content, and the only new name left behind is the temp file. "
-                  " The full statements are false of the pinned code in several ways (F-C14a-d,g), carried as kernel-checked counterexamples "
+                  " The full statements are false of the pinned code in several ways (F-C14a-d,g and C17's number rounding), carried as kernel-checked counterexamples "
                   "and/or corpus witnesses replayed on the real code on every run; EVERY failing generated case is minimised and attributed to a known finding only "
                   "if repairing that recorded hazard in the minimised witness and re-running makes the failure vanish. The models are tied to the code by running the real functions on the same inputs "
                   "and diffing every observation; the specification predicates are evaluated on the implementation's own observations")
@@ -270,6 +293,7 @@ class C14(Check):
         "dictionaries carrying a `type` key inside state never name a registered type unless Serialize produced them (CheckResult inside last_check_result)",
         "the previous version of a file is durable when the next write starts (quiescent start of the crash model)",
         "generated attribute values are well-typed for their field and contain no unterminated '$' (ValidateField is not modelled)",
+        "the config writer's number text (C17) enters the modified-attributes model as an oracle: what ConfigWriter::EmitValue + ConfigCompiler make of each modified number",
     ]
     rule = ("seeded random: modify/restore sequences (2-8 operations; paths vars, vars.k, vars.k.k, vars.k.k.k over existing and absent keys, notes, check_interval, unknown "
             "fields; restores of modified, unmodified, related paths; values: scalars, arrays, dictionaries, `type` keys, odd keys) on a fresh real Host per case, diffed "
@@ -401,7 +425,10 @@ class C14(Check):
         iff the failure then vanishes (no SPECFAIL, MISMATCH or BADLINE).  Returns {witness: (classes or [], trail, lines with obs)}."""
         ws = list(witnesses)
         obs = self._batch(harness, driver, [list(w) for w in ws])
-        state = {w: {"lines": o[0], "classes": [], "trail": [], "done": False, "ok": False, "shown": o[0]} for w, o in zip(ws, obs)}
+        # a recorded finding is a behaviour of the pinned code, i.e. one the faithful model reproduces: a witness on
+        # which model and implementation DISAGREE is never attributed to a known finding
+        state = {w: {"lines": o[0], "classes": [], "trail": [], "ok": False, "shown": o[0],
+                     "done": any(l.startswith(("MISMATCH", "BADLINE")) for l in o[1])} for w, o in zip(ws, obs)}
         for _ in range(4):
             todo, reps = [], []
             for w in ws:
@@ -513,7 +540,9 @@ class C14(Check):
         for l, kv, case, idx in others:
             clause = kv.get("clause", "?")
             if case[0].startswith("S "):
-                classes, trail = self._attribute_s(harness, driver, case[0], clause)
+                disagree = any(m.startswith("MISMATCH") and core.parse_kv(m).get("case") == kv.get("case") for m in mism)
+                classes, trail = ([], ["model and implementation disagree"]) if disagree else \
+                    self._attribute_s(harness, driver, case[0], clause)
                 shown = case[:1]
             else:
                 classes, trail = [], []
